@@ -326,6 +326,12 @@ static inline Dump expected_dump(const ALib& L) {
         for (auto& p : c.paths)
             for (auto& e : p.els) {
                 Line l;
+                if (p.outline && p.robust) {
+                    // taken from the built library by expected_with_circles (the sampled outline has interior collinear vertices)
+                    l.text = "POLY " + hex_u64(e.layer) + " " + hex_u64(e.type) + "|robust-outline|" + rep_text(p.rep.offsets()) + "|" + props_text(p.props);
+                    ls.push_back(l);
+                    continue;
+                }
                 if (p.outline) {
                     // the outline of one axis-parallel segment: a rectangle, lengthened by the end extensions
                     int64_t h = e.width / 2;
@@ -529,6 +535,20 @@ static inline Dump library_dump(const Library& lib, const PolySubst* subst = NUL
         }
         for (uint64_t i = 0; i < c->robustpath_array.count; i++) {
             RobustPath* p = c->robustpath_array[i];
+            if (!p->simple_path) {
+                Array<Polygon*> outl = {};
+                p->to_polygons(false, 0, outl);
+                for (uint64_t k = 0; k < outl.count; k++) {
+                    Polygon* q = outl[k];
+                    ls.push_back("POLY " + hex_u64(get_layer(q->tag)) + " " + hex_u64(get_type(q->tag)) + "|" +
+                                 pts_text(canon_cycle(grid_points(q->point_array, scaling))) + "|" +
+                                 rep_text(rep_offsets_of(q->repetition, scaling)) + "|" + props_text(props_of(q->properties)));
+                    q->clear();
+                    free_allocation(q);
+                }
+                outl.clear();
+                continue;
+            }
             for (uint64_t e = 0; e < p->num_elements; e++) {
                 RobustPathElement* el = p->elements + e;
                 // only used for libraries built by the harness: constant width, straight segments
@@ -717,7 +737,7 @@ static inline void build_library(const ALib& L, Built& b) {
                 RobustPath* p = (RobustPath*)allocate_clear(sizeof(RobustPath));
                 p->num_elements = ne;
                 p->elements = (RobustPathElement*)allocate_clear(ne * sizeof(RobustPathElement));
-                p->simple_path = true;
+                p->simple_path = !ap.outline;
                 p->scale_width = true;
                 p->init(p0, widths.data(), offsets.data(), 0.1 / sc, 1000, tags.data());
                 for (size_t i = 0; i < ne; i++) {
@@ -1143,7 +1163,7 @@ struct Gen {
         }
         p.rep = rep(20, with_defect_classes && g.chance(20));
         p.props = props(20, with_defect_classes && g.chance(20));
-        if (!p.robust && g.chance(15)) {
+        if (g.chance(15)) {
             // a non-simple path, written through to_polygons: one axis-parallel segment, even non-zero widths, extensions >= 0
             p.outline = true;
             int64_t len = 2 * g.range(2, 60) * (g.coin() ? 1 : -1);
